@@ -1,0 +1,92 @@
+//! Verification hook (only compiled with `--cfg stylua_verif`): a drop-in replacement for the `AtomicI32` holding
+//! the exit code, which makes every access a named scheduling point.
+//!
+//! * `STYLUA_VERIF_TRACE=1` prints `VSCHED <name>` to stderr for every access, in the order they happen.
+//! * `STYLUA_VERIF_SCHEDULE=a,b,c` forces the accesses named in the list to happen in that order: an access whose
+//!   name occurs later in the list waits for its turn (at most `STYLUA_VERIF_TIMEOUT_MS`, default 2000, then it
+//!   proceeds and prints `VSCHED-TIMEOUT <name>`); accesses not named in the rest of the list are not delayed.
+//! Names: `load`, `store:<v>`, `fetch_max:<v>`, `fetch_add:<v>`, `swap:<v>`, `compare_exchange:<old>:<new>`.
+use std::sync::atomic::{AtomicI32, Ordering};
+use std::sync::{Condvar, Mutex};
+use std::time::{Duration, Instant};
+
+struct Schedule {
+    names: Vec<String>,
+    next: usize,
+}
+
+lazy_static::lazy_static! {
+    static ref SCHEDULE: (Mutex<Schedule>, Condvar) = {
+        let names = std::env::var("STYLUA_VERIF_SCHEDULE")
+            .map(|s| s.split(',').filter(|x| !x.is_empty()).map(|x| x.to_string()).collect())
+            .unwrap_or_default();
+        (Mutex::new(Schedule { names, next: 0 }), Condvar::new())
+    };
+    static ref TRACE: bool = std::env::var("STYLUA_VERIF_TRACE").is_ok();
+    static ref TIMEOUT: Duration = Duration::from_millis(
+        std::env::var("STYLUA_VERIF_TIMEOUT_MS").ok().and_then(|s| s.parse().ok()).unwrap_or(2000)
+    );
+}
+
+/// Runs `op` when it is the turn of the access called `name`; the access happens inside the critical section,
+/// so the forced order is the order of the accesses themselves.
+fn at_turn<T>(name: &str, op: impl FnOnce() -> T) -> T {
+    let (lock, cvar) = &*SCHEDULE;
+    let mut schedule = lock.lock().unwrap_or_else(|e| e.into_inner());
+    let deadline = Instant::now() + *TIMEOUT;
+    loop {
+        let next = schedule.next;
+        if next < schedule.names.len() && schedule.names[next] == name {
+            schedule.next += 1;
+            break;
+        }
+        if !schedule.names[next.min(schedule.names.len())..].iter().any(|x| x == name) {
+            break;
+        }
+        let now = Instant::now();
+        if now >= deadline {
+            eprintln!("VSCHED-TIMEOUT {name}");
+            break;
+        }
+        schedule = cvar
+            .wait_timeout(schedule, deadline - now)
+            .unwrap_or_else(|e| e.into_inner())
+            .0;
+    }
+    if *TRACE {
+        eprintln!("VSCHED {name}");
+    }
+    let result = op();
+    drop(schedule);
+    cvar.notify_all();
+    result
+}
+
+pub struct SchedCell(AtomicI32);
+
+#[allow(dead_code)]
+impl SchedCell {
+    pub const fn new(value: i32) -> Self {
+        SchedCell(AtomicI32::new(value))
+    }
+    pub fn load(&self, order: Ordering) -> i32 {
+        at_turn("load", || self.0.load(order))
+    }
+    pub fn store(&self, value: i32, order: Ordering) {
+        at_turn(&format!("store:{value}"), || self.0.store(value, order))
+    }
+    pub fn fetch_max(&self, value: i32, order: Ordering) -> i32 {
+        at_turn(&format!("fetch_max:{value}"), || self.0.fetch_max(value, order))
+    }
+    pub fn fetch_add(&self, value: i32, order: Ordering) -> i32 {
+        at_turn(&format!("fetch_add:{value}"), || self.0.fetch_add(value, order))
+    }
+    pub fn swap(&self, value: i32, order: Ordering) -> i32 {
+        at_turn(&format!("swap:{value}"), || self.0.swap(value, order))
+    }
+    pub fn compare_exchange(&self, current: i32, new: i32, success: Ordering, failure: Ordering) -> Result<i32, i32> {
+        at_turn(&format!("compare_exchange:{current}:{new}"), || {
+            self.0.compare_exchange(current, new, success, failure)
+        })
+    }
+}
